@@ -45,22 +45,44 @@ def cprefs(p):
     q.compressionLevel = p["level"]; q.autoFlush = p["autoFlush"]; q.favorDecSpeed = p["favorDec"]
     return q
 
-DATA_KINDS = ["selfdict", "period", "text", "mixed", "runs", "barely", "incompressible_tail", "zerorich", "twosym", "longmatch", "random"]
+LIGHT_KINDS = ["period", "runs", "zerorich", "incompressible_tail", "barely", "random", "longmatch", "farcopy", "farcopy", "twosym"]
+HEAVY_KINDS = ["selfdict", "text", "mixed"]      # many short far matches: the list-based spec decoder costs O(offset) per match
 DICT_SIZES = [0, 1, 7, 8, 100, 4000, 65535, 65536, 70000, 100000]
 
-def gen_material(rng, n, dlen):
+def farcopy(rng, n):
+    """long copies from 40000..65535 bytes back (and a few from beyond the window) between short random stretches:
+    content that is only decodable with the full 64 KB history"""
+    out = bytearray(rng.randbytes(min(n, rng.choice([100, 5000, 66000]))))
+    while len(out) < n:
+        if rng.random() < 0.35 or len(out) < 300:
+            out += rng.randbytes(rng.randrange(1, 300))
+        else:
+            d = rng.choice([rng.randrange(40000, 65536), 65535, 65534, 65536, 65537, rng.randrange(1, 70000)])
+            d = min(d, len(out))
+            l = rng.randrange(100, 3000)
+            s = len(out) - d
+            for i in range(l):
+                out.append(out[s + i])
+    return bytes(out[:n])
+
+def gen_material(rng, n, dlen, tier="quick"):
     """dictionary ++ content drawn from one stream so that the content refers to the dictionary
     and to itself up to (and beyond) 64 KB back"""
-    kind = rng.choice(DATA_KINDS)
+    if n + dlen <= 40000 or rng.random() < (0.25 if tier == "thorough" else 0.08):
+        kind = rng.choice(LIGHT_KINDS + HEAVY_KINDS)
+    else:
+        kind = rng.choice(LIGHT_KINDS)
     if kind == "period":
         pat = rng.randbytes(rng.choice([3, 17, 255, 4096, 30000, 65535, 65536, 65537, 70000]))
         big = (pat * ((n + dlen) // len(pat) + 1))[:n + dlen]
+    elif kind == "farcopy":
+        big = farcopy(rng, n + dlen)
     else:
         big = gens.data(rng, kind, n + dlen)
     big = bytearray(big)
     if n + dlen > 20000 and rng.random() < 0.4:
         # an incompressible stretch inside an otherwise compressible stream
-        a = rng.randrange(dlen, n + dlen)
+        a = rng.randrange(dlen, n + dlen) if n > 0 else dlen
         l = min(n + dlen - a, rng.choice([100, 5000, 65536, 70000]))
         big[a:a + l] = rng.randbytes(l)
     return kind, bytes(big[:dlen]), bytes(big[dlen:])
@@ -142,7 +164,7 @@ def gen_frame(rng, tier, big=False):
     n = min(n, 1100000 if tier != "thorough" else 9000000)      # the extracted model costs ~2 us per byte
     dk = rng.choice(["n", "n", "d", "c"])
     dlen = rng.choice(DICT_SIZES) if dk != "n" else 0
-    dkind, dic, X = gen_material(rng, n, dlen)
+    dkind, dic, X = gen_material(rng, n, dlen, tier)
     script = split_script(rng, kind, n, bs, p["blockMode"] == 1, p["autoFlush"])
     total = sum(s for o, s in script)
     X = X[:total]
@@ -690,7 +712,7 @@ def oneshot(st, cs, rng, res, which, tier):
         rng.choice([0, 1, 65536, 65537, 262144, 262145, 1048576, 1048577, 3000000, 4194304, 4194305, 5000000])
     usecd = (not fresh) and rng.random() < 0.6
     dlen = rng.choice(DICT_SIZES) if usecd else 0
-    dkind, dic, X = gen_material(rng, n, dlen)
+    dkind, dic, X = gen_material(rng, n, dlen, tier)
     if rng.random() < 0.3:
         p["contentSize"] = rng.choice([1, n, 12345])        # auto-corrected by compressFrame
     nullp = rng.random() < 0.1
